@@ -753,6 +753,17 @@ func main() {
 		short := streamRoots
 		streamRoots = longStreamRoots()
 		searchStreams(r, fam, 2, &states, &trans, &samples)
+		// mid-sized roots (9 distinct values; 16 values with duplicates): sizes at which sorts, de-duplication and
+		// capacity growth may change strategy
+		mid9, mid16 := make([]int, 9), make([]int, 16)
+		for i := range mid9 {
+			mid9[i] = 9 - i
+		}
+		for i := range mid16 {
+			mid16[i] = (i*7)%9 + 1
+		}
+		streamRoots = [][]int{mid9, mid16, {}}
+		searchStreams(r, fam, 2, &states, &trans, &samples)
 		streamRoots = short
 		searchSets(r, fam, md, &states, &trans, &samples)
 		searchStreamSets(r, fam, ssd, &states, &trans, &samples)
